@@ -61,6 +61,9 @@ impl SubscriptionManager {
             state.create_subscription(info, topic.clone(), self.push_registry.clone(), delegate)?
         };
 
+        #[cfg(deltio_verif)]
+        crate::verif::point("create_sub.before_attach").await;
+
         topic
             .attach_subscription(subscription.clone())
             .await
